@@ -344,6 +344,9 @@ func vpC14NewEnv(cfg vpC14Cfg) *vpC14Env {
 						io.Copy(io.Discard, c)
 					}
 					c.Write([]byte("<<hijacked>>"))
+					if cfg.Keep {
+						c.Close() // KeepHijackedConns: closing is the handler's job (keeps the scripted client from waiting)
+					}
 					e.mu.Lock()
 					e.hjActive--
 					e.cond.Broadcast()
@@ -717,7 +720,7 @@ func TestVP_C14_ConnState(t *testing.T) {
 			}
 		}
 		if cfg.ReadTimeoutMs == 0 && rapid.IntRange(0, 5).Draw(t, "longtimeout") == 0 {
-			cfg.ReadTimeoutMs = 30000 // deadline code paths without the timeout ever firing
+			cfg.ReadTimeoutMs = 3000 // deadline code paths without the timeout ever firing
 		}
 		skipFirst, allowNoNew := vpKnownOpen(vpC14KeyActiveEarly), vpKnownOpen(vpC14KeyNoNew)
 		res, fail := vpC14RunCase(cfg, hists)
